@@ -8,6 +8,7 @@
 import atexit
 import hashlib
 import json
+import threading
 import os
 import re
 import shutil
@@ -176,12 +177,62 @@ def tlc(module, cfg=None, env=None, workers=None, timeout=900, simulate=None, de
     return r
 
 
+def _mem_available_gb():
+    try:
+        with open("/proc/meminfo") as f:
+            for line in f:
+                if line.startswith("MemAvailable:"):
+                    return int(line.split()[1]) / (1024.0 * 1024.0)
+    except OSError:
+        pass
+    return 1e9
+
+
+_admit_lock = threading.Lock()
+_admit_state = {"running": 0, "recent": []}
+
+
+def _xmx_gb(x):
+    x = str(x or "3g").lower()
+    return float(x[:-1]) / (1024.0 if x.endswith("m") else 1.0) if x[-1] in "gm" else 3.0
+
+
+def _admit(need_gb):
+    """Memory-aware admission of a JVM: other checks may run at the same time, and 16 validators x -Xmx3g next to a second
+    check's 16 exceed the machine.  A job starts when the memory still available covers its heap plus the heaps of the jobs
+    this process started in the last minute (they have not grown yet) plus a margin; one job per process always runs."""
+    waited = 0
+    while True:
+        with _admit_lock:
+            now = time.time()
+            _admit_state["recent"] = [(t, g) for t, g in _admit_state["recent"] if now - t < 60]
+            reserved = sum(g for _, g in _admit_state["recent"])
+            if _admit_state["running"] == 0 or waited > 1800 or _mem_available_gb() - reserved > need_gb + 6:
+                _admit_state["running"] += 1
+                _admit_state["recent"].append((now, need_gb))
+                return
+        time.sleep(3)
+        waited += 3
+
+
+def _release():
+    with _admit_lock:
+        _admit_state["running"] -= 1
+
+
 def tlc_parallel(jobs, max_parallel=None):
-    """jobs: list of kwargs dicts for tlc(); runs them concurrently; returns results in order."""
+    """jobs: list of kwargs dicts for tlc(); runs them concurrently (as far as the available memory allows); returns results in order."""
     if max_parallel is None:
         max_parallel = NCPU
+
+    def one(kw):
+        _admit(_xmx_gb(kw.get("xmx")))
+        try:
+            return tlc(**kw)
+        finally:
+            _release()
     with ThreadPoolExecutor(max_workers=max_parallel) as ex:
-        futs = [ex.submit(lambda kw=kw: tlc(**kw)) for kw in jobs]
+        futs = [ex.submit(one, kw) for kw in jobs]
         return [f.result() for f in futs]
 
 
